@@ -80,6 +80,8 @@ def norm_lit(facts, e, v):
                     if m in ("lt", "le", "gt", "ge"):
                         e = mk_bin({"lt": "Lt", "le": "Le", "gt": "Gt", "ge": "Ge"}[m], args[0], args[1])
                         continue
+            if len(args) == 1 and args[0][0] == "str" and p.endswith("is_empty"):
+                return ("const", (args[0][1] == "") == v)
             if len(args) == 1:
                 m = {"core::option::Option::is_some": ("core::option::Option", "Some"),
                      "core::option::Option::is_none": ("core::option::Option", "None"),
@@ -185,16 +187,41 @@ class PG:
         self._build()
 
     def _tracked_locals(self):
+        """Locals whose current value is carried in the node's environment: bool locals assigned in
+        several blocks, and selector locals all of whose definitions are constants or copies of other
+        tracked locals (`reason` strings, `expected` message kinds)."""
         a = self.an
         out = set()
+        cands = {}
         for l, d in enumerate(a.defs):
             if len(d) >= 2 and not a.partial[l] and not a.mutref[l] and not a.is_param(l):
-                ty = self.body.local_ty(l)
-                if ty == "bool":
+                if self.body.local_ty(l) == "bool":
                     out.add(l)
-                elif all(dd[2] == "assign" and (("use" in dd[3] and "const" in dd[3]["use"]) or (dd[3].get("agg") == "adt" and not dd[3]["ops"])) for dd in d):
-                    # selector locals (`reason` strings, `expected` message kinds): every definition is a constant
+                else:
+                    cands[l] = d
+
+        def const_or_tracked(dd):
+            if dd[2] != "assign":
+                return False
+            rv = dd[3]
+            pl = None
+            if "use" in rv:
+                pl = rv["use"].get("copy") or rv["use"].get("move")
+            elif "ref" in rv:
+                pl = rv["ref"]
+            if pl is not None and all(p == "*" for p in pl["p"]):
+                if pl["l"] in out:
+                    return True
+            e = a.expr_rvalue(rv, (dd[0], dd[1]))
+            return e[0] in ("str", "int", "enum", "bool", "bytes", "item")
+
+        changed = True
+        while changed:
+            changed = False
+            for l, d in cands.items():
+                if l not in out and all(const_or_tracked(dd) for dd in d):
                     out.add(l)
+                    changed = True
         return out
 
     def _node(self, block, env):
@@ -372,6 +399,37 @@ class PG:
                 if m not in seen:
                     work.append(m)
         return True
+
+    def after_edge_must_pass(self, edge_pred, must_pred, assume=None):
+        """For every edge accepted by edge_pred(lits): all paths from its target to a function exit pass
+        through a block with must_pred. Returns (ok, number of such edges)."""
+        starts = []
+        for n in range(len(self.nodes)):
+            for m, lits in self.edges[n] or []:
+                if lits and edge_pred(lits):
+                    starts.append(m)
+        ok = True
+        for st in starts:
+            seen = set()
+            work = [st]
+            while work:
+                n = work.pop()
+                if n in seen:
+                    continue
+                seen.add(n)
+                bi = self.nodes[n][0]
+                if must_pred(bi):
+                    continue
+                k = self.body.blocks[bi]["term"]["k"]
+                if k == "return":
+                    ok = False
+                    break
+                for m, lits in self.edges[n] or []:
+                    if assume and any(contradicts(self.facts, a, l) for a in assume for l in lits):
+                        continue
+                    if m not in seen:
+                        work.append(m)
+        return ok, len(starts)
 
     def reach(self, assume=None, start_block=0):
         """Blocks reachable from entry over edges none of whose literals contradicts a literal in
